@@ -145,6 +145,52 @@ def program_bytes_verbatim(chk, repo):
     chk.floor("vyxal_to_utf8 calls in main.py", n, 1)
 
 
+def sibling_codepages(chk, repo, codepage, F):
+    """The byte value of a character is its position in the code page; the
+    repository writes the table down three times (the interpreter, the web
+    editor's static/main.js, the documentation generator).  Position by
+    position they must agree (the copies spell newline and space as the
+    symbols for them)."""
+    import os
+    import re
+    copies = {}
+    for rel in ("static/main.js", "documents/knowledge/yaml_to_js.py"):
+        path = os.path.join(repo.root, rel)
+        if not os.path.exists(path):
+            continue
+        text = open(path, encoding="utf-8").read()
+        m = re.search(r'(?:var\s+)?codepage\s*=\s*"((?:[^"\\]|\\.)*)"', text)
+        if not m:
+            continue
+        parts = [m.group(1)]
+        pos = m.end()
+        while True:
+            m2 = re.compile(r'\s*;?\s*codepage\s*\+=\s*"((?:[^"\\]|\\.)*)"'
+                            ).match(text, pos)
+            if not m2:
+                break
+            parts.append(m2.group(1))
+            pos = m2.end()
+        raw = "".join(parts)
+        raw = re.sub(r"\\(.)", lambda q: {"n": "\n", "t": "\t"}.get(
+            q.group(1), q.group(1)), raw)
+        copies[rel] = raw.replace("\u2424", "\n").replace("\u2420", " ")
+    chk.floor("sibling copies of the code page", len(copies), 1)
+    for rel, other in copies.items():
+        diff = [i for i in range(min(len(other), len(codepage)))
+                if other[i] != codepage[i]]
+        ok = not diff and len(other) == len(codepage)
+        chk.ob("C20.codepage-agrees-with-its-copies", rel, ok,
+               (f"byte {diff[0]} is {codepage[diff[0]]!r} in "
+                f"vyxal/encoding.py but {other[diff[0]]!r} in {rel}"
+                if diff else f"lengths differ ({len(codepage)} vs "
+                f"{len(other)})")
+               + ": a program typed in the editor / stored as bytes means "
+               "something else to the interpreter", F,
+               witness=f"byte {diff[0]}" if diff else None,
+               sample={"copy": rel, "length": len(other)})
+
+
 def check(chk, repo, tier):
     it = Interp(repo)
     enc = repo.mod("encoding")
@@ -152,6 +198,8 @@ def check(chk, repo, tier):
     codepage = penc.get("codepage")
     chk.trusted_base += ["CPython ast", "vystatic.pe constant folder"]
     F = enc.rel
+
+    sibling_codepages(chk, repo, codepage, F)
 
     # ---- (1) code page is a bijection byte <-> character -------------------
     chk.ob("C20.codepage-256", "encoding.codepage", isinstance(codepage, str)
